@@ -170,7 +170,15 @@ func (e *Engine) abort(status, detail string) {
 	panic(pathEnd{status, detail})
 }
 
-func (e *Engine) progPanic(msg string) { e.abort("PANIC", msg) }
+// progPanic: a run-time panic of the program. Raised while LIBRARY code is executing it is a
+// finding by default (the code under test crashes on an input / schedule the harness allows);
+// raised in harness code it stays a machinery problem.
+func (e *Engine) progPanic(msg string) {
+	if e.hb != nil && e.hbInLibrary() {
+		e.abort("LIB-PANIC", msg)
+	}
+	e.abort("PANIC", msg)
+}
 
 func (e *Engine) unmodelled(what string) { e.abort("UNMODELLED", what) }
 
@@ -555,6 +563,9 @@ func (e *Engine) RunOne(fn *ssa.Function, prefix []Decision, wit *Witness) [][]D
 				e.h.Unmodelled = append(e.h.Unmodelled, det)
 			}
 		}
+	}
+	if _, ok := e.h.Expect[st]; !ok && st == "LIB-PANIC" {
+		e.h.Expect[st] = "fail:the code under test panics"
 	}
 	if v, ok := e.h.Expect[st]; ok && strings.HasPrefix(v, "fail:") {
 		msg := v[5:]
